@@ -207,18 +207,50 @@ def run(prop, tier, seed, keep=False, only=None, jobs=16):
         for h in hs:
             groups.setdefault(h.group_key(), []).append(h)
         try:
-            for key, grp in sorted(groups.items(), key=lambda kv: str(kv[0])):
+            # groups (different Kani flags) and the SMT engine run concurrently, each cargo-kani
+            # invocation with its own target dir; cores are shared (-j per group)
+            import concurrent.futures
+            glist = sorted(groups.items(), key=lambda kv: str(kv[0]))
+            per = max(2, jobs // max(1, len(glist))) if len(glist) > 1 else jobs
+
+            def _one(idx_key_grp):
+                idx, (key, grp) = idx_key_grp
                 to = max(h.timeout for h in grp)
-                r = kanirun.run_group(stage.dir, grp, jobs=jobs, timeout_s=to, stub=key[0],
-                                      cbmc_args=key[1], solver=key[2], log_path=log_path,
-                                      tag="g%d" % len(groups_info), unwindset=key[3])
-                results.update(r["results"])
-                tools = r["tools"] or tools
-                groups_info.append({"cmd": r["cmd"], "wall_s": round(r["wall_s"], 1),
-                                    "peak_rss_mb": r["peak_rss_mb"], "killed_oom": r["killed_oom"],
-                                    "harnesses": len(grp)})
-            if mj:
-                mir_results = mirjobs.run(stage, mj, log_path)
+                return kanirun.run_group(stage.dir, grp, jobs=max(per, min(jobs, len(grp))) if len(glist) == 1 else max(per, 4),
+                                         timeout_s=to, stub=key[0], cbmc_args=key[1], solver=key[2],
+                                         log_path=log_path + ".g%d" % idx, tag="g%d" % idx, unwindset=key[3],
+                                         target_dir=os.path.join(stage.dir, "target_g%d" % idx))
+
+            with concurrent.futures.ThreadPoolExecutor(max_workers=max(1, len(glist)) + 1) as pool:
+                mfut = pool.submit(mirjobs.run, stage, mj, log_path + ".mir") if mj else None
+                futs = [pool.submit(_one, x) for x in enumerate(glist)]
+                errs = []
+                for (idx, (key, grp)), fut in zip(enumerate(glist), futs):
+                    try:
+                        r = fut.result()
+                    except kanirun.BuildError as e:
+                        errs.append(e)
+                        continue
+                    results.update(r["results"])
+                    tools = r["tools"] or tools
+                    groups_info.append({"cmd": r["cmd"], "wall_s": round(r["wall_s"], 1),
+                                        "peak_rss_mb": r["peak_rss_mb"], "killed_oom": r["killed_oom"],
+                                        "harnesses": len(grp)})
+                if mfut is not None:
+                    mir_results = mfut.result()
+                # one log file
+                for idx in range(len(glist)):
+                    gp = log_path + ".g%d" % idx
+                    if os.path.exists(gp):
+                        with open(gp) as fi, open(log_path, "a") as fo:
+                            fo.write(fi.read())
+                        os.remove(gp)
+                if os.path.exists(log_path + ".mir"):
+                    with open(log_path + ".mir") as fi, open(log_path, "a") as fo:
+                        fo.write(fi.read())
+                    os.remove(log_path + ".mir")
+                if errs:
+                    raise errs[0]
         except kanirun.BuildError as e:
             print("HARNESS-BUILD-ERROR property=%s: the harness no longer compiles against /repo's tree" % prop)
             print(str(e)[:3000])
